@@ -110,7 +110,42 @@ func checkBox3(rec *ev.Rec, t *rapid.T, n *shape.Node, b *shape.Built, S float64
 	if res.BoxProblem != "" {
 		rec.Violation(t, "C01:"+n.Op+":"+res.BoxProblem, "%s: box %v", n, bb)
 	}
+	// symmetry witnesses: a rotate-copy / rotate-union at the root is (by its definition) a pattern about
+	// the z axis; an interior sample turned by multiples of the step angle is a candidate for another
+	// copy's material. It is only EVALUATED there (no claim that it is inside): negative and outside
+	// the box is a leak like any other.
+	if step, cnt := rotStep(n); cnt > 1 {
+		tau := boxprobe.Tau3(bb)
+		for _, p := range res.Interior3 {
+			for k := 1; k < cnt; k++ {
+				for _, sgn := range []float64{1, -1} {
+					a := sgn * float64(k) * step
+					q := v3.Vec{X: p.X*math.Cos(a) - p.Y*math.Sin(a), Y: p.X*math.Sin(a) + p.Y*math.Cos(a), Z: p.Z}
+					out := boxprobe.Outside3(bb, q)
+					if out <= tau {
+						continue
+					}
+					res.Probes++
+					if v := s.Evaluate(q); v < -tau {
+						key, detail := culprit(b, [3]float64{q.X, q.Y, q.Z}, tau)
+						rec.Violation(t, key, "%s (box %v): Evaluate(%v) = %v at a point %v outside the box [symmetry witness of the interior sample %v]; %s", n, bb, q, v, out, p, detail)
+					}
+				}
+			}
+		}
+	}
 	return res
+}
+
+// rotStep: step angle and copy count of a rotational pattern at the root (0,0 otherwise).
+func rotStep(n *shape.Node) (float64, int) {
+	switch n.Op {
+	case "rotcopy3", "rotcopy2":
+		return 2 * math.Pi / float64(n.I[0]), n.I[0]
+	case "rotunion3", "rotunion2":
+		return n.P[0], n.I[0]
+	}
+	return 0, 0
 }
 
 func checkBox2(rec *ev.Rec, t *rapid.T, n *shape.Node, b *shape.Built, S float64) boxprobe.Result {
@@ -123,6 +158,26 @@ func checkBox2(rec *ev.Rec, t *rapid.T, n *shape.Node, b *shape.Built, S float64
 	if res.BoxProblem != "" {
 		rec.Violation(t, "C01:"+n.Op+":"+res.BoxProblem, "%s: box %v", n, bb)
 	}
+	if step, cnt := rotStep(n); cnt > 1 {
+		tau := boxprobe.Tau2(bb)
+		for _, p := range res.Interior2 {
+			for k := 1; k < cnt; k++ {
+				for _, sgn := range []float64{1, -1} {
+					a := sgn * float64(k) * step
+					q := v2.Vec{X: p.X*math.Cos(a) - p.Y*math.Sin(a), Y: p.X*math.Sin(a) + p.Y*math.Cos(a)}
+					out := boxprobe.Outside2(bb, q)
+					if out <= tau {
+						continue
+					}
+					res.Probes++
+					if v := s.Evaluate(q); v < -tau {
+						key, detail := culprit(b, [3]float64{q.X, q.Y, 0}, tau)
+						rec.Violation(t, key, "%s (box %v): Evaluate(%v) = %v at a point %v outside the box [symmetry witness of the interior sample %v]; %s", n, bb, q, v, out, p, detail)
+					}
+				}
+			}
+		}
+	}
 	return res
 }
 
@@ -131,7 +186,7 @@ func TestBoxEncloses3(t *testing.T) {
 	rapid.Check(t, func(t *rapid.T) {
 		S := rapid.SampledFrom([]float64{1, 10, 100}).Draw(t, "scale")
 		depth := rapid.IntRange(0, ev.Pick(3, 4)).Draw(t, "depth")
-		n := shape.Gen3(t, shape.Opts{S: S, Depth: depth, Grammar: shape.Full, Special: true, NoBlend: true, NoText: rapid.IntRange(0, 9).Draw(t, "textok") != 0})
+		n := shape.Gen3(t, shape.Opts{S: S, Depth: depth, Grammar: shape.Full, Special: true, NoBlend: true, UniformRoot: rapid.Bool().Draw(t, "uniform-root"), NoText: rapid.IntRange(0, 9).Draw(t, "textok") != 0})
 		// place the whole shape away from the origin / rotated / mirrored
 		if rapid.IntRange(0, 2).Draw(t, "place") > 0 {
 			n = shape.Place3(t, n, S)
@@ -163,7 +218,7 @@ func TestBoxEncloses2(t *testing.T) {
 	rapid.Check(t, func(t *rapid.T) {
 		S := rapid.SampledFrom([]float64{1, 10, 100}).Draw(t, "scale")
 		depth := rapid.IntRange(0, ev.Pick(3, 4)).Draw(t, "depth")
-		n := shape.Gen2(t, shape.Opts{S: S, Depth: depth, Grammar: shape.Full, Special: true, NoBlend: true, NoText: rapid.IntRange(0, 9).Draw(t, "textok") != 0})
+		n := shape.Gen2(t, shape.Opts{S: S, Depth: depth, Grammar: shape.Full, Special: true, NoBlend: true, UniformRoot: rapid.Bool().Draw(t, "uniform-root"), NoText: rapid.IntRange(0, 9).Draw(t, "textok") != 0})
 		if rapid.IntRange(0, 2).Draw(t, "place") > 0 {
 			n = shape.Place2(t, n, S)
 		}
@@ -186,6 +241,61 @@ func TestBoxEncloses2(t *testing.T) {
 		rec.Add("probes-outside-box", int64(res.Probes))
 		rec.Case(nt, n.String(), append(opLabels(n), fmt.Sprintf("nonempty=%v", res.Interior > 0))...)
 		rec.Sample("program2", map[string]any{"program": n.String(), "box": fmt.Sprint(b.SDF2().BoundingBox()), "interior_samples": res.Interior, "probes": res.Probes})
+	})
+}
+
+// TestConstructorBoxes3 / 2: every constructor of the grammar as the OUTERMOST operation over leaf
+// operands (depth 1, the operator drawn uniformly): the constructor's own box arithmetic in
+// isolation, a few hundred cases per constructor and run.
+func TestConstructorBoxes3(t *testing.T) {
+	rec := ev.Get()
+	rapid.Check(t, func(t *rapid.T) {
+		S := rapid.SampledFrom([]float64{1, 10, 100}).Draw(t, "scale")
+		n := shape.Gen3(t, shape.Opts{S: S, Depth: rapid.IntRange(1, 2).Draw(t, "depth"), Grammar: shape.Full, Special: true, NoBlend: true, UniformRoot: true, NoText: true})
+		b, err := shape.Build(n)
+		if err != nil {
+			if _, ok := err.(shape.ErrDomain); ok {
+				rec.Count("discarded:constructor-rejected", 1)
+				rec.Case(false, "", "discarded")
+				return
+			}
+			t.Fatalf("build: %v", err)
+		}
+		if thinInwardOffset(b, n) {
+			rec.Count("discarded:inward-offset-not-small-against-operand", 1)
+			rec.Case(false, "", "discarded")
+			return
+		}
+		res := checkBox3(rec, t, n, b, S)
+		rec.Add("probes-outside-box", int64(res.Probes))
+		rec.Case(res.Interior > 0, n.String(), "root:"+n.Op, fmt.Sprintf("nonempty=%v", res.Interior > 0))
+		rec.Sample("constructor3:"+n.Op, map[string]any{"program": n.String(), "box": fmt.Sprint(b.SDF3().BoundingBox()), "interior_samples": res.Interior, "probes": res.Probes})
+	})
+}
+
+func TestConstructorBoxes2(t *testing.T) {
+	rec := ev.Get()
+	rapid.Check(t, func(t *rapid.T) {
+		S := rapid.SampledFrom([]float64{1, 10, 100}).Draw(t, "scale")
+		n := shape.Gen2(t, shape.Opts{S: S, Depth: rapid.IntRange(1, 2).Draw(t, "depth"), Grammar: shape.Full, Special: true, NoBlend: true, UniformRoot: true, NoText: true})
+		b, err := shape.Build(n)
+		if err != nil {
+			if _, ok := err.(shape.ErrDomain); ok {
+				rec.Count("discarded:constructor-rejected", 1)
+				rec.Case(false, "", "discarded")
+				return
+			}
+			t.Fatalf("build: %v", err)
+		}
+		if thinInwardOffset(b, n) {
+			rec.Count("discarded:inward-offset-not-small-against-operand", 1)
+			rec.Case(false, "", "discarded")
+			return
+		}
+		res := checkBox2(rec, t, n, b, S)
+		rec.Add("probes-outside-box", int64(res.Probes))
+		rec.Case(res.Interior > 0, n.String(), "root:"+n.Op, fmt.Sprintf("nonempty=%v", res.Interior > 0))
+		rec.Sample("constructor2:"+n.Op, map[string]any{"program": n.String(), "box": fmt.Sprint(b.SDF2().BoundingBox()), "interior_samples": res.Interior, "probes": res.Probes})
 	})
 }
 
